@@ -36,7 +36,10 @@ def theorems_table():
     rows = ["| property | theorems in lean/JV/Props (names) |", "|---|---|"]
     for p in sorted(glob.glob(os.path.join(ROOT, "lean", "JV", "Props", "C*.lean"))):
         names = re.findall(r"^theorem\s+([A-Za-z0-9_'.]+)", open(p).read(), re.M)
-        rows.append("| %s | %s |" % (os.path.basename(p)[:-5], ", ".join("`%s`" % n for n in names)))
+        errc = [n for n in names if n.startswith("errc_") and n != "errc_complete"]
+        shown = [n for n in names if n not in errc]
+        extra = (" + `errc_<name>` for each of the %d json_errc enumerators" % len(errc)) if errc else ""
+        rows.append("| %s (%d) | %s%s |" % (os.path.basename(p)[:-5], len(names), ", ".join("`%s`" % n for n in shown), extra))
     return "\n".join(rows)
 
 
